@@ -262,7 +262,7 @@ impl<'tcx> Cx<'tcx> {
                 } else {
                     // plain owning containers are transparent: the leaf is named after the first
                     // extern ADT inside them that is not a container
-                    let p = self.dp(did);
+                    let p = self.dp(did).replace("alloc::alloc::", "std::");
                     let transparent = p == "std::boxed::Box"
                         || p == "std::vec::Vec"
                         || p == "core::option::Option"
